@@ -248,6 +248,38 @@ def eval_table_case(case, fail):
                     fail('matching_edge_missing',
                          f'matcher_{nm}: qubit {f} has no edge and no lighter parallel edge')
                     break
+    if cls == 'XCubeCode' and interior and np.all(qx > 1e-6) and np.all(qx < 0.5 - 1e-6) \
+            and (name is None or (name == 'XZZX' and (kwargs or {}).get('deformation_axis', 'z') == 'z')):
+        # the X-cube decoder matches inside one 2-D toric lattice per plane;
+        # an edge of the plane orthogonal to `a` running along the 3-D axis
+        # `u` stands for the qubits on u-edges: its weight is their X-flip LLR
+        # (the decoder documents support for the default deformation axis)
+        from panqec.decoders import XCubeMatchingDecoder
+        xdec = XCubeMatchingDecoder(code, em, p)
+        per_axis = {}
+        for u in 'xyz':
+            vals = np.array([np.log((1 - qx[i]) / qx[i]) for i, loc in enumerate(code.qubit_coordinates)
+                             if code.qubit_axis(tuple(loc)) == u])
+            per_axis[u] = float(vals[0]) if len(vals) and np.ptp(vals) < 1e-12 else None
+        for a, (b, c_) in (('x', ('y', 'z')), ('y', ('x', 'z')), ('z', ('x', 'y'))):
+            T = xdec.toric_code[a]
+            m2 = xdec.matching_decoder[a]
+            for nm in ('matcher_x', 'matcher_z'):
+                matcher = getattr(m2, nm, None)
+                if matcher is None:
+                    continue
+                bad = None
+                for u_, v_, attr in matcher.edges():
+                    for f in attr['fault_ids']:
+                        axis3 = b if T.qubit_axis(tuple(T.qubit_coordinates[int(f)])) == 'x' else c_
+                        ref_w = per_axis[axis3]
+                        if ref_w is not None and abs(float(attr['weight']) - ref_w) > 1e-9 * max(1, abs(ref_w)):
+                            bad = (int(f), axis3, float(attr['weight']), ref_w)
+                if bad:
+                    fail('xcube_plane_edge_weight',
+                         f'plane orthogonal to {a}, {nm}: 2-D edge {bad[0]} stands for qubits on '
+                         f'{bad[1]}-edges and has weight {bad[2]}, their X-flip LLR is {bad[3]}')
+                    break
     if interior and case.get('bposd', True):
         from panqec.decoders import BeliefPropagationOSDDecoder
         rs = np.random.default_rng(case['rseed'] + 5)
